@@ -367,7 +367,20 @@ func (c *c17) equalityOne(r *fw.Rec, rng *rand.Rand, feat map[string]int64, limi
 	if limit > 0 {
 		maxWidth = limit + 8
 	}
-	if rng.Intn(8) == 0 {
+	if rng.Intn(16) == 0 {
+		// explicit indexes combined with '*' width/precision, and indexes that are out of range
+		// (0, negative, huge, malformed): args = [value, small int, small int]
+		kind := pick(rng, c17Kinds)
+		vs := docVerbs[kind]
+		v := string(vs[rng.Intn(len(vs))])
+		// args = [width, value, precision]: every operand a '*' can reach is an int ("must be of type Int")
+		args = append(args, c17Arg{kind: "int", i: int64(rng.Intn(14))}, c17RandArg(rng, kind), c17Arg{kind: "int", i: int64(rng.Intn(9))})
+		tmpl := pick(rng, []string{"%[1]*[2]V", "%[3]*.[1]*[2]V", "%[2]V|%[1]*[2]V", "%[1]*.[3]*[2]V", "%-[1]*[2]V|%[2]V", "%.[3]*[2]V", "%[2]V%[3]*[2]V", "%[1]*[2]V%[3]*[2]V%[2]V",
+			"%[0]V", "%[00]V", "%[0]*[2]V", "%.[0]*[2]V", "%[2]V%[0]V", "%[-1]V", "%[4]V", "%[99999999999999999999]V", "%[2]V%[4]*[2]V", "%[x]V", "%[2V", "%[]V", "%[1]*[4]V", "%[3]*[0]V"})
+		sb.WriteString(strings.ReplaceAll(tmpl, "V", v))
+		feat["argindex"]++
+		feat["argindex-with-star-or-bad-index"]++
+	} else if rng.Intn(8) == 0 {
 		// explicit argument indexes: one kind for the whole format so that every
 		// verb stays matched whatever index it names
 		kind := pick(rng, c17Kinds)
